@@ -1,5 +1,7 @@
 // Spline monitors, part 2: C05 C06 C10 C13 C14.
 #pragma once
+#include <thread>
+#include <atomic>
 #include "spline_monitors.hpp"
 
 namespace vf
@@ -276,12 +278,12 @@ inline std::string gkey(const Problem &p, const char *eq)
 inline void runC05(Ctx &c)
 {
     const bool thorough = c.a.tier == "thorough";
-    static const std::vector<int> nq{1, 2, 3, 4, 5, 6, 8, 10};
-    static const std::vector<int> nt{1, 2, 3, 4, 5, 6, 7, 8, 9, 10, 16, 32, 64};
+    static const std::vector<int> nq{1, 2, 3, 4, 5, 6, 8, 10, 33, 64, 65, 100};
+    static const std::vector<int> nt{1, 2, 3, 4, 5, 6, 7, 8, 9, 10, 16, 32, 33, 63, 64, 65, 100, 129};
     auto cells = splineCellList(c, thorough ? nt : nq);
     for (auto &cl : cells)
     {
-        double nominal = thorough ? (cl.N <= 10 ? 60 : 10) : 10;
+        double nominal = thorough ? (cl.N <= 10 ? 60 : 10) : (cl.N <= 10 ? 10 : 1);
         const uint64_t per = c.count(nominal);
         for (uint64_t idx = 0; idx < per; ++idx)
         {
@@ -390,12 +392,12 @@ inline void runC05(Ctx &c)
 inline void runC06(Ctx &c)
 {
     const bool thorough = c.a.tier == "thorough";
-    static const std::vector<int> nq{1, 2, 3, 4, 5, 6, 8, 10};
-    static const std::vector<int> nt{1, 2, 3, 4, 5, 6, 7, 8, 9, 10, 16, 32, 64};
+    static const std::vector<int> nq{1, 2, 3, 4, 5, 6, 8, 10, 33, 64, 65, 100};
+    static const std::vector<int> nt{1, 2, 3, 4, 5, 6, 7, 8, 9, 10, 16, 32, 33, 63, 64, 65, 100, 129};
     auto cells = splineCellList(c, thorough ? nt : nq);
     for (auto &cl : cells)
     {
-        double nominal = thorough ? (cl.N <= 10 ? 60 : 10) : 10;
+        double nominal = thorough ? (cl.N <= 10 ? 60 : 10) : (cl.N <= 10 ? 10 : 1);
         const uint64_t per = c.count(nominal);
         for (uint64_t idx = 0; idx < per; ++idx)
         {
@@ -426,7 +428,7 @@ inline void runC06(Ctx &c)
                 LD a = 0;
                 for (int j = 0; j < q.dim; ++j)
                     for (int i = 0; i < q.N; ++i)
-                        a += energyExact(&Cq(i * nc, j), 1, nc, sO, q.T[i]).abssum;
+                        a += energyExact(&Cq(i * nc, j), colStride(Cq), nc, sO, q.T[i]).abssum;
                 return (double)a;
             };
             LD Eabs = energyScale(p);
@@ -482,7 +484,7 @@ inline void runC06(Ctx &c)
                                     rel = INFINITY;
                                 wc = std::max(wc, rel);
                             }
-                            PolyVal e = polyDerivD(&C(i * nc, j), 1, nc, h, sO);
+                            PolyVal e = polyDerivD(&C(i * nc, j), colStride(C), nc, h, sO);
                             tv += e.value * e.value;
                             ta += e.abssum * e.abssum;
                         }
@@ -686,7 +688,7 @@ inline void runC13(Ctx &c)
                         int seg = 0;
                         while (seg + 1 < p.N && t >= cum[seg + 1])
                             ++seg;
-                        PolyVal pv = polyDerivD(&C1(seg * nc, 0), 1, nc, (LD)t - (LD)cum[seg], k);
+                        PolyVal pv = polyDerivD(&C1(seg * nc, 0), colStride(C1), nc, (LD)t - (LD)cum[seg], k);
                         wEval = std::max(wEval, scaledDiff(a, b, (double)pv.abssum));
                     }
             }
@@ -847,7 +849,7 @@ inline void runC14(Ctx &c)
             LD Eabs = 0;
             for (int j = 0; j < p.dim; ++j)
                 for (int i = 0; i < p.N; ++i)
-                    Eabs += energyExact(&C(i * nc, j), 1, nc, sO, p.T[i]).abssum;
+                    Eabs += energyExact(&C(i * nc, j), colStride(C), nc, sO, p.T[i]).abssum;
             MatrixXld Cld = C.cast<LD>();
             const double egS = gradsMaxAbs(eg), pgS = gradsMaxAbs(pg);
             switch (relation)
@@ -858,10 +860,16 @@ inline void runC14(Ctx &c)
                 // "every start time": moderate shifts, and astronomically large ones (nothing but the knot times may depend on it)
                 double shift = r.coin(0.25) ? r.pick(std::vector<double>{1e9, -1e9, 1e12, -3e11, -1e12}) : (r.coin() ? std::ldexp(1.0, r.range(-3, 12)) * (r.coin() ? 1 : -1) : r.uni(-1e3, 1e3));
                 q.t0 = p.t0 + shift;
-                auto sq = splineForRelation(c, r, *s, q);
-                c.check("C14.shift.coeffs_unchanged", coeffError(q, sq->coeffs(), Cld, 1e-3), 1e-12, gkey(p, "shift"));
-                c.check("C14.shift.energy_unchanged", scaledDiff(sq->energy(), E, (double)Eabs), 1e-12, gkey(p, "shift"));
-                c.check("C14.shift.gradients_unchanged", std::max(gradsRel(sq->energyGrad(false), eg, egS), gradsRel(sq->propagate(u.gC, u.gT, false), pg, pgS)), 1e-12, gkey(p, "shift"));
+                // the shifted problem may also be specified by absolute time points (moderate times only: the durations are then
+                // differences of rounded sums, equal to the original ones within eps*|t|/T)
+                const bool shiftedByPoints = std::fabs(q.t0) <= 64 && std::fabs(p.t0) <= 64 && r.coin(0.4);
+                auto sq = shiftedByPoints ? (r.coin() ? makeSplinePts(q) : [&]() { auto z = s->clone(); z->updatePts(q.timePoints(), q.P, q.bc); return z; }()) : splineForRelation(c, r, *s, q);
+                const double shTol = shiftedByPoints ? 3e-8 : 1e-12;
+                if (shiftedByPoints)
+                    c.event("relation.shift_by_time_points");
+                c.check(std::string("C14.shift.coeffs_unchanged") + (shiftedByPoints ? ".time_points" : ""), coeffError(q, sq->coeffs(), Cld, 1e-3), shTol, gkey(p, "shift"));
+                c.check(std::string("C14.shift.energy_unchanged") + (shiftedByPoints ? ".time_points" : ""), scaledDiff(sq->energy(), E, (double)Eabs), shTol, gkey(p, "shift"));
+                c.check(std::string("C14.shift.gradients_unchanged") + (shiftedByPoints ? ".time_points" : ""), std::max(gradsRel(sq->energyGrad(false), eg, egS), gradsRel(sq->propagate(u.gC, u.gT, false), pg, pgS)), shTol, gkey(p, "shift"));
                 std::vector<double> cq = sq->cumTimes();
                 bool ok = (int)cq.size() == p.N + 1 && bitEqual(cq[0], q.t0) && bitEqual(sq->startTime(), q.t0);
                 LD acc = q.t0;
@@ -890,7 +898,8 @@ inline void runC14(Ctx &c)
                         w = std::max(w, relMat(a, b, a.cwiseAbs().maxCoeff() + 1e-300));
                     }
                 }
-                c.check("C14.shift.evaluation_unchanged", w, 1e-12, gkey(p, "shift"));
+                if (!shiftedByPoints) // (values relative to themselves: only meaningful where the two coefficient sets are bit-equal)
+                    c.check("C14.shift.evaluation_unchanged", w, 1e-12, gkey(p, "shift"));
                 c.event("relation.shift");
                 break;
             }
@@ -1325,6 +1334,22 @@ inline void runC10(Ctx &c)
                     }
                     have = true;
                     c.event("op.update");
+                    if (cur.N <= 6 && curEntry <= 1 && r.coin(0.04))
+                    {
+                        // a long run of updates with no query in between (an optimisation that only updates the object), of a
+                        // length at which small counters wrap
+                        const int burst = r.pick(std::vector<int>{255, 256, 257, 512});
+                        for (int q = 0; q < burst; ++q)
+                        {
+                            cur.P(r.range(0, cur.N), r.range(0, cur.dim - 1)) += 0.01 * r.normal();
+                            if (curEntry == 0)
+                                L->updateDur(cur.T, cur.P, cur.t0, cur.bc);
+                            else
+                                L->updatePts(curTp, cur.P, cur.bc);
+                        }
+                        trace.push_back("burst of " + std::to_string(burst) + " updates without a query");
+                        c.event("op.update_burst");
+                    }
                 }
                 else
                 {
@@ -1394,6 +1419,147 @@ inline void runC10(Ctx &c)
             c.nontrivial(hh);
             if (idx < 1)
                 c.wantSample();
+        }
+    }
+}
+// ------------------------------------------------------------------ results computed during static initialisation
+// A spline built and queried by a namespace-scope object's constructor (before main) gives what the same calls give later.
+inline void runStaticInit(Ctx &c)
+{
+    const std::string prop = c.a.prop;
+    for (auto od : splineCells())
+    {
+        if (!selected(c.a.orders, od.first) || !selected(c.a.dims, od.second))
+            continue;
+        std::string cell = "static_init_o" + std::to_string(od.first) + "d" + std::to_string(od.second);
+        if (!c.cellSelected(cell) || !c.mine(0))
+            continue;
+        (void)c.beginCase(cell, 0);
+        const StaticInitRecord &rec = splineStaticInit(od.first, od.second);
+        auto s = makeSplineDur(rec.p);
+        c.dump = [&]() { return dumpProblem(rec.p); };
+        bool ok = true;
+        if (prop == "C04")
+            ok = bitEqual(rec.E, s->energy());
+        else if (prop == "C05")
+            ok = gradsBitEqual(rec.pg, s->propagate(rec.gC, rec.gT, false));
+        else if (prop == "C06")
+            ok = gradsBitEqual(rec.eg, s->energyGrad(false));
+        else
+        {
+            ok = bitEqualMat(rec.C, s->coeffs());
+            const double ts[3] = {rec.p.t0, rec.p.t0 + 1.1, rec.p.t0 + 2.9};
+            int row = 0;
+            for (double t : ts)
+                for (int k = 0; k < 3; ++k)
+                    ok = ok && bitEqualMat(rec.evals.row(row++).transpose(), s->trajEval(t, k));
+        }
+        c.require(prop + ".result_during_static_initialisation_equals_later_result", ok, gkey(rec.p, "static_init"));
+        c.event("static_initialisation_probes");
+    }
+}
+
+// ------------------------------------------------------------------ distinct objects in concurrent threads
+// Every thread owns its problems and its spline objects; the caller shares nothing.  What a property states for every
+// input holds whatever other, unrelated spline computations the process is running at the same time: the results
+// obtained under concurrency are compared bitwise with the same computations done alone afterwards, and the same
+// workload runs under ThreadSanitizer (hidden shared state: function-local statics, static scratch buffers, ...).
+inline bool obsFieldsEqual(const Observables &a, const Observables &b, const std::string &prop)
+{
+    if (prop == "C04")
+        return bitEqual(a.E, b.E);
+    if (prop == "C05")
+        return gradsBitEqual(a.pg1, b.pg1) && gradsBitEqual(a.pg2, b.pg2);
+    if (prop == "C06")
+        return gradsBitEqual(a.eg, b.eg) && bitEqualMat(a.pc, b.pc) && bitEqualMat(a.pt, b.pt);
+    // C01 / C02: the constructed trajectory and its evaluations
+    return bitEqualMat(a.C, b.C) && bitEqualVec(a.cum, b.cum) && bitEqualVec(a.bp, b.bp) && bitEqual(a.t0, b.t0) && bitEqual(a.te, b.te) && a.nseg == b.nseg && bitEqualMat(a.evals, b.evals);
+}
+inline void runThreadsSpline(Ctx &c)
+{
+    const bool thorough = c.a.tier == "thorough";
+    const std::string prop = c.a.prop;
+    const int T = 4;
+    const uint64_t per = c.count(thorough ? 40 : 8);
+    for (auto od : splineCells())
+    {
+        if (!selected(c.a.orders, od.first) || !selected(c.a.dims, od.second))
+            continue;
+        std::string cell = "threads_o" + std::to_string(od.first) + "d" + std::to_string(od.second);
+        if (!c.cellSelected(cell))
+            continue;
+        for (uint64_t idx = 0; idx < per; ++idx)
+        {
+            if (!c.mine(idx))
+                continue;
+            Rng r = c.beginCase(cell, idx);
+            // equal segment counts in half of the cases: a hidden shared buffer is then overwritten rather than re-allocated
+            const bool sameN = r.coin();
+            const int N0 = r.range(1, 12);
+            std::vector<Problem> ps(T);
+            std::vector<Upstream> us(T);
+            std::vector<std::vector<double>> tss(T);
+            uint64_t hh = 0;
+            for (int t = 0; t < T; ++t)
+            {
+                ps[t] = genProblem(r, od.first, od.second, sameN ? N0 : r.range(1, 12));
+                us[t] = genUpstream(r, ps[t], 0);
+                std::vector<double> cu = ps[t].timePoints();
+                tss[t] = {cu.front(), cu.back(), r.uni(cu.front(), cu.back()), r.uni(cu.front(), cu.back())};
+                hh = mix64(hh, hashProblem(ps[t]));
+            }
+            c.dump = [&]() { return JObj().i("threads", T).raw("problem_of_thread_0", dumpProblem(ps[0])).done(); };
+            c.nontrivial(hh);
+            if (idx < 1)
+                c.wantSample();
+            const int reps = thorough ? 60 : 25;
+            std::vector<Observables> first(T);
+            std::vector<int> stable(T, 1);
+            std::atomic<int> ready{0};
+            std::vector<std::thread> th;
+            for (int t = 0; t < T; ++t)
+                th.emplace_back([&, t]()
+                                {
+                                    ready.fetch_add(1);
+                                    while (ready.load() < T)
+                                        std::this_thread::yield();
+                                    std::unique_ptr<ISpline> reused;
+                                    for (int rep = 0; rep < reps; ++rep)
+                                    {
+                                        std::unique_ptr<ISpline> fresh;
+                                        ISpline *s = nullptr;
+                                        if (rep % 3 == 2 && reused)
+                                        {
+                                            reused->updateDur(ps[t].T, ps[t].P, ps[t].t0, ps[t].bc);
+                                            s = reused.get();
+                                        }
+                                        else
+                                        {
+                                            fresh = makeSplineDur(ps[t]);
+                                            s = fresh.get();
+                                        }
+                                        Observables o = observe(*s, us[t], tss[t], true);
+                                        if (rep == 0)
+                                            first[t] = o;
+                                        else if (!obsFieldsEqual(o, first[t], prop))
+                                            stable[t] = 0;
+                                        if (fresh && rep % 3 == 0)
+                                            reused = std::move(fresh);
+                                    } });
+            for (auto &x : th)
+                x.join();
+            bool allStable = true, allEqual = true;
+            for (int t = 0; t < T; ++t)
+            {
+                auto F = makeSplineDur(ps[t]);
+                Observables oF = observe(*F, us[t], tss[t], true);
+                allStable = allStable && stable[t];
+                allEqual = allEqual && obsFieldsEqual(first[t], oF, prop);
+            }
+            c.require(prop + ".concurrent_unrelated_objects_same_result_as_alone", allEqual, gkey(ps[0], "threads"));
+            c.require(prop + ".concurrent_unrelated_objects_repeatable", allStable, gkey(ps[0], "threads"));
+            c.event("thread_rounds");
+            c.event("concurrent_object_computations", (uint64_t)T * reps);
         }
     }
 }
